@@ -1,5 +1,6 @@
 import Driver.Proto
 import BedVerif.Model.Lapper
+import BedVerif.Lemmas.FastCover
 /-!
 Near-linear-time judging of LARGE Lapper cases (C16–C20): histories with more than `threshold`
 intervals. The executable model (`Lapper.run`) and the position-enumerating specs are quadratic or
@@ -110,7 +111,10 @@ def mergeCover (a : Array SE) : Array SE := sweep (sortSE a)
 
 /-- the canonical cover of the covered positions (spec semantics: only non-empty intervals cover
 anything); book-ended intervals are fused -/
-def canonCover (a : Array SE) : Array SE := sweep (sortSE (a.filter (fun x => x.1 < x.2)))
+def canonCover (a : Array SE) : Array SE :=
+  -- `fastCover` is PROVED equal to the position-enumerating `canonicalCover` of Spec/Lapper.lean
+  -- (`fastCover_eq_canonicalCover`, Lemmas/FastCover.lean)
+  (fastCover (a.toList.map (fun (x : SE) => (⟨x.1, x.2, ()⟩ : Iv Unit)))).toArray
 
 def covLen (cover : Array SE) : Nat := cover.foldl (fun c x => c + (x.2 - x.1)) 0
 
